@@ -180,6 +180,16 @@ def _impl(c):
     if k == 'planck':
         wu = ALIAS[c['wu']][-1] if c['alias'] else c['wu']
         wave = np.array([float(Fraction(x) * MPU['nm'] / MPU[c['wu']]) for x in c['wave_nm']])
+        w0 = wave.copy()
+        rad = [float(x) for x in R.planck_radiance(wave, c['temp'], wu, c['vu'])]
+        touched = None if np.array_equal(wave, w0) else [float(x) for x in wave]
+        wave = w0.copy()
+        exi_ = [float(x) for x in R.planck_exitance(wave, c['temp'], wu, c['vu'])]
+        if touched is None and not np.array_equal(wave, w0): touched = [float(x) for x in wave]
+        wave = w0.copy()
+        bbo = R.Blackbody(wave, c['temp'], waveunit=wu, valueunit=c['vu'])
+        return {'wave': [float(x) for x in w0], 'rad': rad, 'exi': exi_, 'bb': [float(x) for x in bbo.value], 'bbwave': [float(x) for x in bbo.wave],
+                'touched': touched, 'H': R.H, 'C': R.C, 'K': R.K}
         return {'wave': [float(x) for x in wave], 'rad': [float(x) for x in R.planck_radiance(wave, c['temp'], wu, c['vu'])],
                 'exi': [float(x) for x in R.planck_exitance(wave, c['temp'], wu, c['vu'])],
                 'bb': [float(x) for x in R.Blackbody(wave, c['temp'], waveunit=wu, valueunit=c['vu']).value],
@@ -360,6 +370,8 @@ def oracle(c, io):
             if not all_close(io['rt_wave'], c['wave'], 1e-14) or not all_close(io['rt_value'], c['value'], 1e-12): return 'round trip did not restore the spectrum'
         return None
     if k == 'planck':
+        if io.get('touched') is not None: return f"planck_* rescaled the caller's wavelength array in place: {io['wave'][:3]} {c['wu']} became {io['touched'][:3]} (the same grid used again describes other wavelengths)"
+        if 'bbwave' in io and not all_close(io['bbwave'], io['wave'], 1e-15): return f"Blackbody(wave, …, waveunit='{c['wu']}').wave is {io['bbwave'][:3]}, given {io['wave'][:3]}"
         H, C, K = io['H'], io['C'], io['K']
         for i, x in enumerate(c['wave_nm']):
             lam = x * 1e-9
